@@ -359,7 +359,9 @@ def _store(tier, rng, problems):
                                    [Output(1234 + i, SECP256k1PublicKey(keys[i % 4]))]))
             if i % 3 == 0:
                 txs.append(Transaction([Input(OutputReference(zeros, rng.choice([2, 0xfffffffe])), SECP256k1Signature(b'\x07' * 64))],
-                                       [Output(5, SECP256k1PublicKey(keys[0])), Output(0, SECP256k1PublicKey(keys[1]))]))
+                                       [Output(5 + i, SECP256k1PublicKey(keys[0])), Output(0, SECP256k1PublicKey(keys[1]))]))
+                # (5 + i: every transaction of this test is distinct - the same transaction in two stored blocks is the
+                # known C08 finding `shared-transaction`, not what is tested here)
         summary = BlockSummary(i, prev_hash, calc_merkle_root_hash(txs), 1_700_000_000 + 10 * i, b'\x00' + b'\xff' * 31, i)
         b = Block(BlockHeader(summary, PowEvidence(bytes([i]) * 32, b'c' * 32, b'b' * 32)), txs)
         b = Block.deserialize(b.serialize())        # the node works with what it decodes
